@@ -254,3 +254,57 @@ def wrap_impl(cls, raw):
 
 def model_wrap_line(module, letter, now, rec):
     return "wrap %s %s %s %s" % (module, letter, codecio.cps(now) or "", codecio.record_wire(rec))
+
+
+# ---------------------------------------------------------------------------------------------
+# parsing the driver's dictionary syntax back into Python values
+# ---------------------------------------------------------------------------------------------
+
+def _pv(tok):
+    if tok == "n":
+        return None
+    if tok.startswith("t"):
+        body = tok[1:]
+        return "".join(chr(int(x)) for x in body.split(".")) if body else ""
+    raise ValueError(tok)
+
+
+def _pkvs(s):
+    out = {}
+    if not s:
+        return out
+    for kv in s.split(","):
+        k, v = kv.split("=", 1)
+        out[k] = _pv(v)
+    return out
+
+
+def parse_dict_wire(s):
+    """inverse of dict_wire"""
+    out = {}
+    for part in s.split(" "):
+        if not part:
+            continue
+        k, v = part.split(":", 1)
+        if v.startswith("c(") and v.endswith(")"):
+            out[k] = _pkvs(v[2:-1])
+        elif v.startswith("r(") and v.endswith(")"):
+            inner = v[2:-1]
+            out[k] = [_pkvs(x) for x in inner.split(";")] if inner else []
+        else:
+            out[k] = _pv(v)
+    return out
+
+
+def parse_json_doc(line):
+    """driver `tojson` output -> python dict shaped like Wrapper.to_dict()"""
+    assert line.startswith("ok ")
+    parts = line[3:].split(" ## ")
+    head = parts[0].split(" ")
+    astm = common.unhex(head[0][2:]).decode("latin-1")
+    lis = common.unhex(head[1][2:]).decode("latin-1")
+    doc = {"metadata": {"astm": astm, "lis2a": lis}}
+    for b in parts[1:]:
+        letter, rest = b.split(" => ", 1)
+        doc[letter] = [parse_dict_wire(x) for x in rest.split(" ~~ ")]
+    return doc
